@@ -45,6 +45,28 @@ let () =
                 (bytes_of k, if v = "!" then None else Some (z_of_string v))) (String.split_on_char ',' l)) (String.split_on_char ';' lines) in
             let observe = List.map bytes_of (if arm then q_observe_arm else q_observe) in
             "Q " ^ String.concat "," (List.map (fun o -> match o with None -> "-" | Some v -> string_of_z v) (run_cfi_rules arm written cal observe))
+          | "P" :: scr :: nts :: rest ->
+            (* P <susp,outc;...> <nt> <trees> | <dump spec>   (the model ignores the dump: the trees ARE the threads) *)
+            let toks = ref rest in
+            let next () = match !toks with t :: r -> toks := r; t | [] -> failwith "P: short case" in
+            let nat_of_int i = a_nat_of_z (z_of_int i) in
+            let int_of_nat n = int_of_z (a_z_of_nat n) in
+            let outcome_of_int = function 0 -> OOk | 1 -> ONotFound | 2 -> OMissing | 3 -> OLoad | _ -> OParse in
+            let scripts = List.map (fun e -> match String.split_on_char ',' e with
+                | [a; b] -> (nat_of_int (int_of_string a), outcome_of_int (int_of_string b)) | _ -> failwith "script") (String.split_on_char ';' scr) in
+            let rec tree () =
+              let t = next () in
+              let v = int_of_string (String.sub t 1 (String.length t - 1)) in
+              if t.[0] = 'd' then a_done (nat_of_int v)
+              else (let ok = tree () in let err = tree () in a_ask (nat_of_int v) ok err) in
+            let trees = List.init (int_of_string nts) (fun _ -> tree ()) in
+            let ((_, logs), (calls, (stats, (req, proc)))) = run_adaptive scripts trees [] (nat_of_int 400) in
+            let join sep f l = if l = [] then "-" else String.concat sep (List.map f l) in
+            Printf.sprintf "P %s;%s;%s;%d/%d"
+              (join "|" (fun l -> join "." (fun (k, _) -> string_of_int (int_of_nat k)) l) logs)
+              (join "." (fun k -> string_of_int (int_of_nat k)) calls)
+              (join "," (fun st -> match st with None -> "-" | Some o -> (if stat_loaded o then "L" else "l") ^ (if stat_corrupt o then "C" else "c")) stats)
+              (int_of_nat req) (int_of_nat proc)
           | "A" :: rest ->
             (* A nk {susp outc}*nk nt {tree}*nt ns {t}*ns ; tree = d<v> | k<key> <ok subtree> <err subtree> *)
             let toks = ref rest in
